@@ -99,9 +99,47 @@ impl Prop for C17 {
         let mut rng = Rng::derive(ctx.seed, "C17", idx);
         let scratch = Scratch::new(&ctx.work_dir, "c17");
         let dir = scratch.path.as_path();
+        let cfg = Cfg::sample_sane(&mut rng);
+        if idx % 16 == 5 {
+            // ---- byte forms the decoder accepts but the encoder never produces: re-encoding changes the
+            // on-disk length independently of the text length
+            let (label, bytes): (&str, &[u8]) = *rng.pick(&[
+                ("gbk", &b"BEGIN\n  X   :=   '\xa2\xe3' ;\nEND.\n"[..]),
+                ("gb18030", &b"BEGIN\n  X   :=   '\xa2\xe3\xa2\xe3' ;\nEND.\n"[..]),
+                ("iso-2022-jp", &b"BEGIN\x1b(B\n  X   :=   1 ;\x1b(B\nEND.\n"[..]),
+                ("iso-2022-jp", &b"BEGIN\n  X := '\x1b$B$\"\x1b(B\x1b$B$$\x1b(B';\nEND.\n"[..]),
+                ("gbk", &b"BEGIN X:='\xa2\xe3';END."[..]),
+            ]);
+            let enc = Encoding::for_label(label.as_bytes()).expect("label");
+            let (text, _, had_err) = enc.decode(bytes);
+            if had_err {
+                out.count("noncanonical_form_not_accepted_by_codec");
+                return out;
+            }
+            let text = text.to_string();
+            let Some((formatted, _)) = common::run(&mut out, &cfg, &text) else { return out };
+            let Some(expected) = encode(enc, &formatted) else { return out };
+            let mut args = cfg.to_cli_args();
+            args.push("-C".into());
+            args.push(format!("encoding={label}"));
+            let f = dir.join("n.pas");
+            std::fs::write(&f, bytes).unwrap();
+            let mut a = args.clone();
+            a.push("n.pas".into());
+            out.evals += 1;
+            out.count(&format!("noncanonical_input.{label}"));
+            let r = cli::run(Invocation { bin: &ctx.cli_bin, args: a, cwd: dir, stdin: None, env: vec![], as_nobody: false });
+            let got = std::fs::read(&f).unwrap_or_default();
+            if !r.ok() {
+                out.violate("C17", "valid-input-rejected", format!("[{label}] non-canonical but valid input rejected: exit {:?}", r.code), &text, Some(&cfg));
+            } else if got != expected {
+                out.violate("C17", "bytes-differ", format!("[{label}] input with a byte form the encoder never produces ({} bytes): file has {} bytes, encode(F(decode(input))) has {} bytes; tail {:02x?}", bytes.len(), got.len(), expected.len(), &got[got.len().saturating_sub(6)..]), &text, Some(&cfg));
+            }
+            out.nontrivial.push(rng::hash_combine(rng::hash_bytes(bytes), rng::hash_str(&cfg.short())));
+            return out;
+        }
         let label = LABELS[(idx as usize) % LABELS.len()];
         let configured = Encoding::for_label(label.as_bytes()).expect("label");
-        let cfg = Cfg::sample_sane(&mut rng);
         // which BOM (decides the effective encoding)
         let bom_kind = rng.below(8);
         let (bom, effective): (&[u8], &'static Encoding) = match bom_kind {
